@@ -29,6 +29,23 @@ MStep ==
   /\ l <= Len(Rec) /\ l' = l + 1 /\ UNCHANGED calling
   /\ (TMergeTV \/ TMergeStarted \/ TSchedule \/ TIntruder)
 
-MNext == TNext \/ MStep
-MSpec == TInit /\ [][MNext]_vars
+\* A merge that was started on valid sources ends well unless something cancels it: a rollback, a
+\* writer dropped or replaced, delete_all_documents, an injected fault - or a commit that removed
+\* one of its sources (all of a source's documents deleted: the segment is gone, end_merge has
+\* nothing to replace).  `msrc`: the sources of the running merge, {} when none is watched.
+VARIABLE msrc
+Cancels == {"rollback", "delete_all", "drop_writer", "new_writer", "wait_merges", "fault", "intruder_create"}
+Scenario == IF "tag" \in DOMAIN Ev /\ "scenario" \in DOMAIN Ev.tag THEN Ev.tag.scenario ELSE ""
+SegsOf(obs) == {obs.segs[i].sid : i \in 1..Len(obs.segs)}
+MergeWatch ==
+  msrc' = CASE Ev.ev = "reset" -> (IF Scenario \in {"delete_commit_fault", "stale_end_merge"} THEN {0} ELSE {})
+            [] Ev.ev = "merge_started" /\ msrc = {} /\ "sids" \in DOMAIN Ev -> SeqToSet(Ev.sids)
+            [] Ev.ev \in Cancels /\ msrc # {0} -> {}
+            [] Ev.ev = "commit" /\ msrc # {0} /\ Ev.ok /\ "obs" \in DOMAIN Ev /\ Ev.obs.ok /\ ~(msrc \subseteq SegsOf(Ev.obs)) -> {}
+            [] Ev.ev = "merge" /\ msrc # {0} -> {}
+            [] OTHER -> msrc
+StartedMergeSucceeds == (Ev.ev = "merge" /\ msrc # {} /\ msrc # {0}) => Ev.ok
+
+MNext == (TNext \/ MStep) /\ MergeWatch /\ StartedMergeSucceeds
+MSpec == TInit /\ msrc = {} /\ [][MNext]_<<vars, msrc>>
 =============================================================================
